@@ -85,6 +85,7 @@ func runNativeFile(bin, path string, timeout time.Duration) nativeResult {
 	ctx, cancel := context.WithTimeout(context.Background(), timeout)
 	defer cancel()
 	cmd := exec.CommandContext(ctx, bin, "-obs", path)
+	cmd.Env = append(os.Environ(), "VERIF_REPLAY_FILE="+path)
 	var out bytes.Buffer
 	cmd.Stdout = &out
 	cmd.Stderr = &out
@@ -161,6 +162,25 @@ func buildReplay(harnessDir, outDir string) (string, error) {
 	out, err := cmd.CombinedOutput()
 	if err != nil {
 		return "", fmt.Errorf("go build replay: %v\n%s", err, out)
+	}
+	return bin, nil
+}
+
+// buildCLIReplay compiles cmd/pql with the C16 harness overlaid (nothing is written into the repository).
+func buildCLIReplay(repoDir, virtualPath, realPath, outDir string) (string, error) {
+	ov := filepath.Join(outDir, fmt.Sprintf("overlay-%d.json", os.Getpid()))
+	b, _ := json.Marshal(map[string]any{"Replace": map[string]string{virtualPath: realPath}})
+	if err := os.WriteFile(ov, b, 0o644); err != nil {
+		return "", err
+	}
+	defer os.Remove(ov)
+	bin := filepath.Join(outDir, fmt.Sprintf("replay-cli-%d", os.Getpid()))
+	cmd := exec.Command("go", "build", "-overlay", ov, "-o", bin, "./cmd/pql")
+	cmd.Dir = repoDir
+	cmd.Env = goEnv()
+	out, err := cmd.CombinedOutput()
+	if err != nil {
+		return "", fmt.Errorf("go build cmd/pql with overlay: %v\n%s", err, out)
 	}
 	return bin, nil
 }
@@ -256,12 +276,29 @@ func cmdCheck(argv []string) int {
 		return 2
 	}
 
-	e, err := loadEngine(repoDir, harnessDir, nil, nil)
+	var overlay map[string][]byte
+	var extra []string
+	cliOverlayPath := filepath.Join(repoDir, "cmd", "pql", "zz_verif_c16.go")
+	cliSrc := filepath.Join(harnessDir, "cli", "zz_verif_c16.go.txt")
+	if spec.CLI {
+		b, err := os.ReadFile(cliSrc)
+		if err != nil {
+			return broken("%v", err)
+		}
+		overlay = map[string][]byte{cliOverlayPath: b}
+		extra = []string{repoModule + "/cmd/pql"}
+	}
+	e, err := loadEngine(repoDir, harnessDir, overlay, extra)
 	if err != nil {
 		return broken("cannot load the code under verification: %v", err)
 	}
 	e.seed = seed
-	replayBin, err := buildReplay(harnessDir, buildDir)
+	var replayBin string
+	if spec.CLI {
+		replayBin, err = buildCLIReplay(repoDir, cliOverlayPath, cliSrc, buildDir)
+	} else {
+		replayBin, err = buildReplay(harnessDir, buildDir)
+	}
 	if err != nil {
 		return broken("%v", err)
 	}
@@ -280,7 +317,10 @@ func cmdCheck(argv []string) int {
 				list = append(list, r.Harness)
 			}
 		}
-		if out, err := exec.Command(replayBin, "-has", strings.Join(list, ",")).CombinedOutput(); err != nil {
+		if spec.CLI {
+			list = nil
+		}
+		if out, err := exec.Command(replayBin, "-has", strings.Join(list, ",")).CombinedOutput(); err != nil && len(list) > 0 {
 			return broken("native replay registry incomplete: %s", strings.TrimSpace(string(out)))
 		}
 	}
@@ -293,6 +333,9 @@ func cmdCheck(argv []string) int {
 	inconclusive := 0
 	for _, rs := range runs {
 		fn := e.funcByName(harnessModule + "/h." + rs.Harness)
+		if spec.CLI {
+			fn = e.funcByName(repoModule + "/cmd/pql." + rs.Harness)
+		}
 		if fn == nil {
 			return broken("harness %s not found", rs.Harness)
 		}
